@@ -225,7 +225,9 @@ def run(chk):
                 reported += 1
     chk.cov['rule'] = ('generated module descriptions (all item kinds, operand forms, boundary immediates, NaN payloads, strings with '
                       'NULs, several modules per context, a few cases above two compression buffers) built through the API by '
-                      'harness/c11_io.c; checked: two writes byte-equal, read(write) prints identically and executes identically '
+                      'harness/c11_io.c; checked: two writes byte-equal, every module written on its own gives the same bytes as the first write of '
+                      'the context and after other writes and through both entry points, read(write) prints identically, is structurally '
+                      'identical through the API and executes identically '
                       '(compressed and raw builds), raw bytes equal the extracted Coq writer, the Coq reader returns the '
                       'normalised module. non-trivial = at least 3 insns/data items; distinct by description text')
     for c in cases[len(corpus):len(corpus) + 3]:
@@ -249,7 +251,7 @@ def replay(chk, path):
     r1, r2, rm = run_cases(chk, exes, [case])
     bad = judge(case, r1[0], r2[0], rm[0])
     print('case:', case)
-    for k in ('build', 'W2', 'RB', 'T1', 'RW', 'TN1', 'TR1', 'X0', 'X1', 'FR0', 'FR1', 'CRASH'):
+    for k in ('build', 'TS', 'SS', 'W2', 'RB', 'T1', 'S1', 'RW', 'WF', 'WH', 'RM', 'TM', 'TN1', 'TR1', 'X0', 'X1', 'FR0', 'FR1', 'CRASH'):
         print('  raw.%s = %s   compressed.%s = %s' % (k, r1[0].get(k, '-')[:100], k, r2[0].get(k, '-')[:100]))
     for s, w in bad:
         print('FAIL', s, w)
